@@ -996,6 +996,14 @@ func NewMap() Map {
 	return SmallMap{}
 }
 
+// CopyMap returns a map that can be modified without changing m (small maps already are values).
+func CopyMap(m Map) Map {
+	if bm, ok := m.(*BigMap); ok {
+		return &BigMap{kv: slices.Clone(bm.kv)}
+	}
+	return m
+}
+
 func areIntFloat(a, b Type) bool {
 	l := min(a, b)
 	h := max(a, b)
